@@ -30,10 +30,11 @@ class Rec(Observer):
     def close(self): ...
 
 
-def make(kind, intervals, seed=3):
+def make(kind, intervals, seed=3, prefill=""):
     a = bulk("Cu", cubic=True)
     a.calc = EMT()
     log = io.StringIO()
+    log.write(prefill)
     ref = [None]
     with warnings.catch_warnings():
         warnings.simplefilter("ignore")
@@ -112,7 +113,21 @@ def standin(tier, seed):
                             V.add("split:log_file", case, f"{len(log.getvalue().splitlines())} lines vs {len(ref_log.getvalue().splitlines())}")
                         if not np.array_equal(atoms.positions, ref_atoms.positions):
                             V.add("split:trajectory", case, float(np.abs(atoms.positions - ref_atoms.positions).max()))
-    return V.result(bound=f"2 drivers x {len(interval_sets)} observer tables x all splittings of {nmax} steps into 2 and 3 parts (zeros included) x entry points")
+    # a NEW simulation that appends to a log which already holds text (the default logging mode is append; a stream may carry a
+    # preamble): its header is still written once, before its first row
+    for kind in ("mc", "fb"):
+        ref_sim, _, ref_log, _ = make(kind, (1,))
+        drive(ref_sim, "run", 2)
+        pre = "# log of an earlier run\n   0   1.0\n"
+        for how in (("run", "srun", "irun") if kind == "mc" else ("run", "irun")):
+            sim, _, log, _ = make(kind, (1,), prefill=pre)
+            drive(sim, how, 1)
+            drive(sim, how, 1)
+            case = {"driver": kind, "entry": how, "log_already_holds_text": True}
+            V.case(case)
+            if log.getvalue() != pre + ref_log.getvalue():
+                V.add("header_once_before_first_row_when_appending", case, f"{log.getvalue()[len(pre):][:120]!r} instead of {ref_log.getvalue()[:120]!r}")
+    return V.result(bound=f"appending to a log that already holds text; 2 drivers x {len(interval_sets)} observer tables x all splittings of {nmax} steps into 2 and 3 parts (zeros included) x entry points")
 
 
 def replay(case):
